@@ -17,7 +17,8 @@ import (
 
 // C18: parallel epoch search (FirstSuccess) returns a hit whenever one exists.
 //
-// Scenario = (n jobs, outcome vector in {success(i+1), ErrNotFound, other}^n, concurrency limit).
+// Scenario = (n jobs, outcome vector in {success(i), ErrNotFound, other, context-wrapped}^n, concurrency limit);
+// a successful job i returns the value i, so job 0's hit is the zero value of T.
 // For every scenario ALL interleavings of the real FirstSuccess (first-success.go and errgroup,
 // both instrumented from the current tree) are enumerated by the explorer; n<=3 without a
 // preemption bound, larger n with a bound.
@@ -54,7 +55,7 @@ func (sc c18Scenario) run(c *explore.Ctx) (explore.Result, *vsched.Sched) {
 			if jobErrs[i] != nil {
 				return 0, jobErrs[i]
 			}
-			return i + 1, nil
+			return i, nil // job 0's hit is the zero value of T (epoch 0 is a real epoch)
 		}
 	}
 	s := vsched.Run(c, vsched.Options{Horizon: 5000, Drain: true, Canonical: sc.Bound < 0}, func() {
@@ -89,7 +90,7 @@ func (sc c18Scenario) run(c *explore.Ctx) (explore.Result, *vsched.Sched) {
 			}
 		}
 		if anySuccess {
-			ok := err == nil && val >= 1 && val <= sc.N && sc.Outcomes[val-1] == 0
+			ok := err == nil && val >= 0 && val < sc.N && sc.Outcomes[val] == 0
 			got = fmt.Sprintf("val=%d err=%v", val, err != nil)
 			if !ok {
 				bad("miss", fmt.Sprintf("a job succeeded but FirstSuccess returned val=%d err=%v", val, err))
